@@ -8,7 +8,7 @@ RUNS = {
     "C03": lambda seed, n: [["-seed", str(seed), "-n", str(n), "-x", "leak"]],
     "C04": lambda seed, n: [["-seed", str(seed), "-n", str(n)]],
     "C05": lambda seed, n: [["-seed", str(seed), "-n", str(n)]],
-    "C07": lambda seed, n: [["-seed", str(seed), "-n", str(n), "-x", "malformed"]],
+    "C07": lambda seed, n: [["-seed", str(seed), "-n", str(n), "-x", "malformed"], ["-seed", str(seed + 2), "-n", str(n // 2), "-x", "suffix"]],
     "C09": lambda seed, n: [["-seed", str(seed), "-n", str(n)], ["-seed", str(seed + 1), "-n", str(n // 3), "-x", "malformed"]],
     "C10": lambda seed, n: [["-seed", str(seed), "-n", str(n)]],
     "C20": lambda seed, n: [["-seed", str(seed), "-n", str(n), "-x", "norevoke"]],
